@@ -498,9 +498,21 @@ func cliCases(r *mon.Run, w *world, origPath string) {
 	mine, _ := refage.X25519Wrap(fk, keys.NewX("X1").Public, mon.DetBytes("c17-cli-eph", 32))
 	xfile := refage.BuildFile(fk, []refage.Stanza{{Type: "x", Args: []string{"a"}, Body: make([]byte, 32)}, {Type: "../x", Args: []string{"a"}, Body: nil}, mine, {Type: "zz", Args: nil, Body: nil}}, make([]byte, 16), []byte("cli"))
 	cases = append(cases, cc{"d-native-with-plugin-types", []string{"-d", "-i", "key.txt", "-o", "out.txt", "x.age"}, "", map[string]string{"key.txt": keys.NewX("X1").SecretStr + "\n"}})
+	// the same file with identities that do NOT open it: whatever the tool
+	// tries after every identity failed, a header never starts a program
+	noMatch := []cc{
+		{"d-nomatch-native", []string{"-d", "-i", "other.txt", "-o", "out.txt", "x.age"}, "", map[string]string{"other.txt": keys.NewX("X2").SecretStr + "\n"}},
+		{"d-nomatch-two-natives", []string{"-d", "-i", "other.txt", "-i", "third.txt", "-o", "out.txt", "x.age"}, "", map[string]string{"other.txt": keys.NewX("X2").SecretStr + "\n", "third.txt": keys.NewX("X3").SecretStr + "\n"}},
+		{"d-nomatch-ssh", []string{"-d", "-i", "ed.key", "x.age"}, "", map[string]string{"ed.key": string(keys.Data("ed1"))}},
+		{"d-nomatch-ssh-rsa-and-native", []string{"-d", "-i", "rsa.key", "-i", "other.txt", "x.age"}, "", map[string]string{"rsa.key": string(keys.Data("rsa1")), "other.txt": keys.NewX("X4").SecretStr + "\n"}},
+		{"d-nomatch-native-armored", []string{"-d", "-i", "other.txt", "armored.age"}, "", map[string]string{"other.txt": keys.NewX("X2").SecretStr + "\n", "armored.age": string(refage.Armor(xfile, "\n"))}},
+		{"d-nomatch-only-plugin-types", []string{"-d", "-i", "other.txt", "only.age"}, "", map[string]string{"other.txt": keys.NewX("X2").SecretStr + "\n",
+			"only.age": string(refage.BuildFile(fk, []refage.Stanza{{Type: "x", Args: []string{"a"}, Body: make([]byte, 32)}, {Type: "b", Args: nil, Body: make([]byte, 16)}}, make([]byte, 16), []byte("cli")))}},
+	}
+	cases = append(noMatch, cases...)
 
-	if !r.Thorough() && len(cases) > 60 {
-		cases = cases[:60]
+	if !r.Thorough() && len(cases) > 66 {
+		cases = cases[:66]
 	}
 	for i, c := range cases {
 		os.WriteFile(filepath.Join(work, "x.age"), xfile, 0o600)
@@ -550,6 +562,12 @@ func cliCases(r *mon.Run, w *world, origPath string) {
 		}
 		if c.expect != "" && (len(starts) != 1 || starts[0] != c.expect) {
 			r.Violate("cli-wrong-plugin:"+posOf(c.name), fmt.Sprintf("age %s started %v, want exactly %s", strings.Join(c.argv, " "), starts, c.expect), map[string]any{"argv": c.argv, "files": c.files})
+		}
+		if strings.HasPrefix(c.name, "d-nomatch") {
+			r.Count("cli_no_identity_matches_cases", 1)
+			if res.Exit == 0 {
+				r.Violate("cli-nomatch-exit0", fmt.Sprintf("age %s: no identity opens the file but the tool exited 0", strings.Join(c.argv, " ")), map[string]any{"argv": c.argv})
+			}
 		}
 		if c.name == "d-native-with-plugin-types" {
 			out, _ := os.ReadFile(filepath.Join(work, "out.txt"))
